@@ -26,6 +26,14 @@ kept to be applied on a later attribute access), so whatever was decided at the 
 base class' `__dict__`; a sub class created at any later time — before or after a toggle, used for the first time before or
 after a toggle — finds exactly those objects through the MRO.  In the model a sub class handle therefore carries the mode
 of its base, and a member call through the sub class or one of its instances is answered from that mode alone.
+
+Objects the checking decorators are not made for (`Target.odd`, and every function handed to a class decorator / class handed
+to a function decorator): a function without retrievable source (made with `exec`), a builtin, a `functools.partial`, an instance
+with `__call__`, a lambda, a bound method, a function whose docstring contradicts its signature, a class made with `exec`, an
+`Enum`, a dataclass, ….  The early `return` of the receiver comes before anything looks at the target, so with the switch off the
+outcome is the one of every other target — the row of the generated table decides it (`early`) — whatever the object is.  With the
+switch on the model says nothing about such an object (`DecoOut.unspecified`, mode `unknown`, observation `unspecified`): what
+`DecoratedFunction` / `for_all_methods` make of it is not part of this model, and the correspondence run compares nothing there.
 -/
 namespace PedVerif.Switch
 open PedVerif.Gen.Switch
@@ -66,7 +74,13 @@ structure Target where
   isClass : Bool
   hasDoc : Bool
   full : Bool := false       -- a class that, besides the method `m`, has a class method, a static method and a property (getter + setter)
+  odd : Bool := false        -- an object the checking decorators are not made for (no source, builtin, partial, callable instance, lambda,
+                             -- contradictory docstring, Enum, dataclass, …); `isClass` still says whether it is a class object (changed in
+                             -- place by class decorators); `hasDoc` / `full` mean nothing for it
 deriving DecidableEq, Repr
+
+/-- the decorator is made for this target: an ordinary function for a function decorator, an ordinary class for a class decorator -/
+def fits (d : Deco) (t : Target) : Bool := !t.odd && d.onClass == t.isClass
 
 /-- a member of a class -/
 inductive Member where
@@ -78,7 +92,7 @@ inductive Via where
   | cls | inst
 deriving DecidableEq, Repr
 
-def hasMember (t : Target) (m : Member) : Bool := t.isClass && (t.full || m == .method)
+def hasMember (t : Target) (m : Member) : Bool := !t.odd && t.isClass && (t.full || m == .method)
 
 inductive CallKind where
   | good          -- keyword call with a conforming value
@@ -107,13 +121,15 @@ inductive Mode where
   | frozen (e : Effect)      -- a wrapper whose effect was fixed when it was made
   | dynamic (e : Effect)     -- a wrapper that asks the switch on every call (does not occur in the code as it is)
   | dead                     -- the decoration failed: there is no callable
+  | unknown                  -- whatever an enabled decorator made of an object it is not made for: not described by this model
 deriving DecidableEq, Repr
 
 inductive DecoOut where
   | ok (same dictSame : Bool) (mode : Mode)   -- result `is` target / target's `__dict__` untouched / behaviour
   | raised                                    -- a PedanticException escapes the decoration (missing docstring)
   | switchError                               -- `is_enabled()` itself raised
-  | noRow                                     -- unknown decorator, or function decorator on a class and vice versa
+  | noRow                                     -- unknown decorator
+  | unspecified                               -- the decorator went to work on an object it is not made for: not described by this model
 deriving DecidableEq, Repr
 
 def lookup (n : String) : Option Row := rows.find? (fun r => r.name == n)
@@ -172,11 +188,23 @@ def applyClassRow (r : Row) (innerArg : String) (enF : Option Bool) (enD hasDoc 
     | none => .switchError
     | some e => if guardFires r e then early r else classBody r.membersEager n enD hasDoc
 
+/-- an object the decorator is not made for: only the early `return` is modelled — it is taken (or not) exactly as for every
+    other target, because nothing has looked at the object by then; past it the model is silent -/
+def applyOpaqueRow (r : Row) (enF : Option Bool) (enD : Bool) : DecoOut :=
+  match r.readAt with
+  | .never | .wrapper => .unspecified
+  | .decoration => if guardFires r enD then early r else .unspecified
+  | .factory =>
+    match enF with
+    | none => .switchError
+    | some e => if guardFires r e then early r else .unspecified
+
 def decoOut (d : Deco) (t : Target) (enF : Option Bool) (enD : Bool) : DecoOut :=
-  if d.onClass != t.isClass then .noRow
-  else match lookup d.name with
-    | none => .noRow
-    | some r => if d.onClass then applyClassRow r d.innerArg enF enD t.hasDoc else applyFnRow r enF enD t.hasDoc
+  match lookup d.name with
+  | none => .noRow
+  | some r =>
+    if !fits d t then applyOpaqueRow r enF enD
+    else if d.onClass then applyClassRow r d.innerArg enF enD t.hasDoc else applyFnRow r enF enD t.hasDoc
 
 /-! ### the state machine -/
 
@@ -215,6 +243,7 @@ inductive Obs where
   | switchError
   | derived                           -- a sub class was created
   | callError                         -- the call raised something that is not a PedanticException (a TypeError)
+  | unspecified                       -- the model does not describe this (an enabled decorator met an object it is not made for)
 deriving DecidableEq, Repr
 
 def init (e : Option String) : St := ⟨e, [], [], []⟩
@@ -228,6 +257,7 @@ def effObs (e : Effect) (k : CallKind) : Obs :=
 def callObs (m : Mode) (enNow : Option Bool) (k : CallKind) : Obs :=
   match m with
   | .dead => .bad
+  | .unknown => .unspecified
   | .plain => .called false false false
   | .frozen e => effObs e k
   | .dynamic e =>
@@ -251,6 +281,7 @@ def effObsM (e : Effect) (m : Member) (v : Via) (k : CallKind) : Obs :=
 def callObsM (md : Mode) (enNow : Option Bool) (m : Member) (v : Via) (k : CallKind) : Obs :=
   match md with
   | .dead => .bad
+  | .unknown => .unspecified
   | .plain => .called false false false
   | .frozen e => effObsM e m v k
   | .dynamic e =>
@@ -266,6 +297,7 @@ def finish (s : St) : DecoOut → St × Obs
   | .raised => (push s .dead, .decoRaised)
   | .switchError => (push s .dead, .switchError)
   | .noRow => (push s .dead, .bad)
+  | .unspecified => (push s .unknown, .unspecified)
 
 /-- remember which object the newest handle was made from -/
 def record (t : Option Target) (p : St × Obs) : St × Obs := ({ p.1 with targets := p.1.targets ++ [t] }, p.2)
@@ -317,7 +349,11 @@ def step (s : St) : Op → St × Obs
     -- the sub class owns no member: every lookup ends in the base class' `__dict__`, where `decorate` left what it decided
     match s.handles[h]?, s.targets[h]? with
     | some md, some (some t) =>
-      if t.isClass then record (some t) (if md != .dead then (push s md, .derived) else (push s .dead, .bad))   -- no class came out of the decoration
+      if t.isClass && !t.odd then
+        record (some t) (match md with
+          | .dead => (push s .dead, .bad)                 -- no class came out of the decoration
+          | .unknown => (push s .unknown, .unspecified)   -- not described
+          | md => (push s md, .derived))
       else record none (push s .dead, .bad)                                                                    -- a function has no sub class
     | _, _ => record none (push s .dead, .bad)
   | .callm h m v k =>
